@@ -1387,7 +1387,7 @@ class dictable(Dict):
         if isinstance(y, dict) and len(y) == 1:
             y, ycols = list(y.items())[0]
         else:
-            ycols = self.keys() - x
+            ycols = self.keys() - xcols
         ycols = as_tuple(ycols)
         n = len(ycols)
 
